@@ -270,7 +270,7 @@ def cut_plans(r, n: int, tier: str):
 
 def build_streams(r, tier: str):
     objs = corpus()
-    nstreams = 260 if tier == "quick" else 3000
+    nstreams = 260 if tier == "quick" else 1500
     for i in range(nstreams):
         dirty = i % 2 == 1
         pieces: List[Tuple[str, str]] = []
@@ -443,8 +443,8 @@ def run_into(v: Verdict, prop: str, tier: str) -> None:
     for pieces in build_streams(r, tier):
         text_len = sum(len(t) for _, t in pieces)
         plans = list(cut_plans(r, text_len, tier))
-        if len(plans) > (40 if tier == "quick" else 400):
-            plans = plans[:3] + r.sample(plans[3:], (37 if tier == "quick" else 397))
+        if len(plans) > (40 if tier == "quick" else 200):
+            plans = plans[:3] + r.sample(plans[3:], (37 if tier == "quick" else 197))
         for cuts in plans:
             traces.append(run_stream(pieces, cuts, r.choice(thrs_all)))
     for pieces in truncation_streams(tier):
